@@ -59,7 +59,7 @@ class SimProc(object):
     __slots__ = ('pid', 'ppid', 'state', 'wstatus', 'beh', 'rec', 'kind',
                  'spawned_at', 'died_at', 'pending_exit', 'wfd', 'owner',
                  'cause', 'creator', 'stopped', 'held', 'held_exit',
-                 'pending_cause', 'died_ncall')
+                 'pending_cause', 'died_ncall', 'stop_unreported')
 
     def __init__(self, pid, ppid, beh, kind, t, rec=None, owner=None):
         self.pid = pid
@@ -77,6 +77,7 @@ class SimProc(object):
         self.cause = None
         self.creator = ppid           # original parent, never re-parented
         self.stopped = False          # SIGSTOPped
+        self.stop_unreported = False  # waitpid(WUNTRACED) not told yet
         self.held = []                # signals pending while stopped
         self.held_exit = None         # (remaining, wstatus, cause) frozen
         self.pending_cause = None
@@ -333,6 +334,7 @@ class SimKernel(object):
         if sig == SIGCONT:
             if p.stopped:
                 p.stopped = False
+                p.stop_unreported = False
                 if p.held_exit is not None:
                     rem, ws, cause = p.held_exit
                     p.held_exit = None
@@ -348,6 +350,7 @@ class SimKernel(object):
         if sig == SIGSTOP:
             if not p.stopped:
                 p.stopped = True
+                p.stop_unreported = True
                 if p.pending_exit is not None and \
                         p.pending_cause != 'sigkill':
                     # a stopped process does not run towards its exit
@@ -388,6 +391,13 @@ class SimKernel(object):
             zs = sorted((p for p in kids if p.state == 'zombie'),
                         key=lambda p: p.pid)
             if not zs:
+                if options & os.WUNTRACED:
+                    # a stopped child is reported once per stop
+                    for c in sorted(kids, key=lambda p: p.pid):
+                        if c.state == 'running' and c.stopped and \
+                                c.stop_unreported:
+                            c.stop_unreported = False
+                            return (c.pid, (int(SIGSTOP) << 8) | 0x7f)
                 return (0, 0)
             p = zs[0]
         else:
@@ -395,6 +405,10 @@ class SimKernel(object):
             if p is None or p.ppid != DAEMON_PID or p.state == 'gone':
                 raise ChildProcessError(errno.ECHILD, "No child processes")
             if p.state != 'zombie':
+                if (options & os.WUNTRACED) and p.state == 'running' and \
+                        p.stopped and p.stop_unreported:
+                    p.stop_unreported = False
+                    return (p.pid, (int(SIGSTOP) << 8) | 0x7f)
                 return (0, 0)
         p.state = 'gone'
         self.reap_log.append({"t": self.now(), "pid": p.pid,
@@ -479,6 +493,11 @@ class FakeProcess(object):
 
     def cpu_percent(self, interval=None):
         self._need()
+        if interval is not None and interval > 0.0:
+            # psutil blocks in time.sleep(interval) to compare two samples
+            fn = getattr(self._k, 'sleep_fn', None)
+            if fn is not None:
+                fn(interval)
         return 0.0
 
     def memory_percent(self):
